@@ -108,6 +108,21 @@ class QGen:
         if k < 0.55 or depth <= 0:
             self.shape.append("odbl")
             return f"{o}.{r.choice(DOUBLE_METHODS)}()", "double"
+        if r.random() < 0.10:
+            # built-in helpers: math functions, DeltaR, jet attributes
+            kk = r.random()
+            if kk < 0.4:
+                a, _ = self.obj_num(o, etype, depth - 1, want="double")
+                self.shape.append("mathfn")
+                return f"{r.choice(['sin', 'cos', 'tanh'])}({a})", "double"
+            if kk < 0.7 or etype != "xAOD::Jet":
+                self.shape.append("deltar")
+                return f"DeltaR({o}.eta(), {o}.phi(), {r.choice(FLOATS)}, {r.choice(FLOATS)})", "double"
+            if kk < 0.85:
+                self.shape.append("jetattr")
+                return f"{o}.getAttributeFloat('{r.choice(['emf', 'Width', 'Timing'])}')", "double"
+            self.shape.append("jetattr_vec")
+            return f"{o}.getAttributeVectorFloat('{r.choice(['EnergyPerSampling', 'x'])}').{r.choice(['Count', 'Sum'])}()", "double"
         if r.random() < 0.12:
             a, _ = self.obj_num(o, etype, depth - 1, want="double")
             if r.random() < 0.6:
